@@ -995,6 +995,607 @@ example : orient ((0 : ℤ), (0 : ℤ)) (0, 2) (2, 0) < 0 ∧ orient ((0 : ℤ),
     ¬ inCircleDet ((0 : ℤ), (2 : ℤ)) (0, 0) (-3, 1) (1, 1) < 0 := by decide
 end TwoCircle
 
+/-! ### discharging `FanPositive` / `FanEmpty`: structure of the states; the one remaining hypothesis `CavityDisc` -/
+
+section Pencil
+variable {R : Type} [CommRing R] [LinearOrder R] [IsStrictOrderedRing R]
+
+omit [LinearOrder R] [IsStrictOrderedRing R] in
+theorem orient_rot (a b c : Pt R) : orient b c a = orient a b c ∧ orient c a b = orient a b c := by
+  constructor <;> simp only [orient] <;> ring
+
+omit [LinearOrder R] [IsStrictOrderedRing R] in
+theorem inCircleDet_rot (a b c x : Pt R) :
+    inCircleDet b c a x = inCircleDet a b c x ∧ inCircleDet c a b x = inCircleDet a b c x := by
+  constructor <;> simp only [inCircleDet] <;> ring
+
+omit [LinearOrder R] [IsStrictOrderedRing R] in
+theorem orient_self (a b : Pt R) : orient a b a = 0 ∧ orient a b b = 0 := by
+  constructor <;> simp only [orient] <;> ring
+
+omit [LinearOrder R] [IsStrictOrderedRing R] in
+/-- cyclic Grassmann–Plücker relation for three points over the chord `a b` -/
+theorem pencil_identity (a b x y z : Pt R) :
+    inCircleDet a b y z * orient a b x + inCircleDet a b z x * orient a b y + inCircleDet a b x y * orient a b z = 0 := by
+  simp only [inCircleDet, orient]; ring
+
+omit [LinearOrder R] [IsStrictOrderedRing R] in
+theorem inCircleDet_swap34 (a b x y : Pt R) : inCircleDet a b y x = - inCircleDet a b x y := by
+  simp only [inCircleDet]; ring
+
+omit [LinearOrder R] [IsStrictOrderedRing R] in
+theorem inCircleDet_swap12 (a b x y : Pt R) : inCircleDet b a x y = - inCircleDet a b x y := by
+  simp only [inCircleDet]; ring
+
+/-- pencil of circles through `a b`, T's side: `T = (a,b,c)` clockwise, `p` strictly inside circ(T) and strictly on T's side,
+    `x` on T's side or on the line, `x` not strictly inside circ(T) ⇒ `x` not strictly inside circ(a,b,p) -/
+theorem fan_empty_same_side (a b c p x : Pt R) (hc : orient a b c < 0) (hp : orient a b p < 0) (hx : orient a b x ≤ 0)
+    (hin : inCircleDet a b c p < 0) (hout : ¬ inCircleDet a b c x < 0) : ¬ inCircleDet a b p x < 0 := by
+  have id := pencil_identity a b c p x
+  -- D(p,x) O(c) + D(x,c) O(p) + D(c,p) O(x) = 0
+  have e : inCircleDet a b x c = - inCircleDet a b c x := inCircleDet_swap34 a b c x
+  rw [e] at id
+  intro hneg
+  have h1 : 0 < inCircleDet a b p x * orient a b c := mul_pos_of_neg_of_neg hneg hc
+  have h2 : 0 ≤ inCircleDet a b c x * (- orient a b p) := mul_nonneg (not_lt.mp hout) (by linarith)
+  have h3 : 0 ≤ inCircleDet a b c p * orient a b x := mul_nonneg_of_nonpos_of_nonpos hin.le hx
+  nlinarith
+
+/-- pencil of circles through `a b`, the neighbour's side: `N = (b,a,q)` clockwise, `p` strictly on the other side and not
+    strictly inside circ(N), `x` on N's side or on the line and not strictly inside circ(N) ⇒ `x` not strictly inside circ(a,b,p) -/
+theorem fan_empty_other_side (a b q p x : Pt R) (hq : orient b a q < 0) (hp : orient a b p < 0) (hx : 0 ≤ orient a b x)
+    (hpn : ¬ inCircleDet b a q p < 0) (hxn : ¬ inCircleDet b a q x < 0) : ¬ inCircleDet a b p x < 0 := by
+  have id := pencil_identity a b q p x
+  have oq : 0 < orient a b q := by
+    have : orient b a q = - orient a b q := by simp only [orient]; ring
+    linarith
+  have e1 : inCircleDet b a q p = - inCircleDet a b q p := inCircleDet_swap12 a b q p
+  have e2 : inCircleDet b a q x = - inCircleDet a b q x := inCircleDet_swap12 a b q x
+  have e3 : inCircleDet a b x q = - inCircleDet a b q x := inCircleDet_swap34 a b q x
+  rw [e1] at hpn; rw [e2] at hxn; rw [e3] at id
+  intro hneg
+  have h1 : inCircleDet a b p x * orient a b q < 0 := mul_neg_of_neg_of_pos hneg oq
+  have h2 : 0 ≤ (- inCircleDet a b q x) * (- orient a b p) := mul_nonneg (not_lt.mp hxn) (by linarith)
+  have h3 : 0 ≤ (- inCircleDet a b q p) * orient a b x := mul_nonneg (not_lt.mp hpn) hx
+  nlinarith
+
+end Pencil
+
+section Structure
+variable {R : Type} [CommRing R] [LinearOrder R] [IsStrictOrderedRing R]
+
+/-- the three directed boundary edges of the super-triangle `(n, n+1, n+2)` -/
+def isSuperEdge (n : Nat) (e : Edge) : Prop := e = (n, n + 1) ∨ e = (n + 1, n + 2) ∨ e = (n + 2, n)
+
+/-- the points present after `k` insertions: the first `k` inputs and the three super-triangle vertices -/
+def Present (n k j : Nat) : Prop := j < k ∨ j = n ∨ j = n + 1 ∨ j = n + 2
+
+/-- every input point is strictly inside the (clockwise) super-triangle — `superTriangle_contains` for the model's own
+    super-triangle -/
+def InputsInSuper (P : Nat → Pt R) (n : Nat) : Prop :=
+  ∀ j < n, orient (P n) (P (n + 1)) (P j) < 0 ∧ orient (P (n + 1)) (P (n + 2)) (P j) < 0 ∧
+    orient (P (n + 2)) (P n) (P j) < 0
+
+/-- THE REMAINING HYPOTHESIS `EdgePaired` (combinatorial, not proved): in every state the loop reaches, every directed edge
+    of every triangle is a super-triangle boundary edge or has its reverse in some triangle of the state -/
+def EdgePaired (P : Nat → Pt R) (env : List Tri → List Tri) (n : Nat) : Prop :=
+  ∀ k < n, ∀ t ∈ stateAt P env n k, ∀ e ∈ edges t,
+    isSuperEdge n e ∨ ∃ u ∈ stateAt P env n k, (e.2, e.1) ∈ edges u
+
+/-- the vertex opposite a directed edge of a triangle, with the rotation bookkeeping -/
+theorem edge_opp (P : Nat → Pt R) (t : Tri) (e : Edge) (he : e ∈ edges t) :
+    ∃ c, (c = t.1 ∨ c = t.2.1 ∨ c = t.2.2) ∧ (e.1 = t.1 ∨ e.1 = t.2.1 ∨ e.1 = t.2.2) ∧
+      (e.2 = t.1 ∨ e.2 = t.2.1 ∨ e.2 = t.2.2) ∧
+      orient (P e.1) (P e.2) (P c) = orient (P t.1) (P t.2.1) (P t.2.2) ∧
+      ∀ x, inCircleDet (P e.1) (P e.2) (P c) x = inCircleDet (P t.1) (P t.2.1) (P t.2.2) x := by
+  obtain ⟨t1, t2, t3⟩ := t
+  simp only [edges, List.mem_cons, List.not_mem_nil, or_false] at he
+  rcases he with rfl | rfl | rfl
+  · exact ⟨t3, by simp, by simp, by simp, rfl, fun _ => rfl⟩
+  · exact ⟨t1, by simp, by simp, by simp, (orient_rot _ _ _).1, fun x => (inCircleDet_rot _ _ _ x).1⟩
+  · exact ⟨t2, by simp, by simp, by simp, (orient_rot _ _ _).2, fun x => (inCircleDet_rot _ _ _ x).2⟩
+
+/-- a non-degenerate triangle does not contain an edge in both directions -/
+theorem no_both_dirs (P : Nat → Pt R) (t : Tri) (h : orient (P t.1) (P t.2.1) (P t.2.2) ≠ 0) (a b : Nat)
+    (h1 : (a, b) ∈ edges t) (h2 : (b, a) ∈ edges t) : False := by
+  obtain ⟨t1, t2, t3⟩ := t
+  simp only [edges, List.mem_cons, List.not_mem_nil, or_false, Prod.mk.injEq] at h1 h2
+  apply h
+  rcases h1 with ⟨rfl, rfl⟩ | ⟨rfl, rfl⟩ | ⟨rfl, rfl⟩ <;> rcases h2 with ⟨h3, h4⟩ | ⟨h3, h4⟩ | ⟨h3, h4⟩ <;>
+    (try subst h3) <;> (try subst h4) <;> simp only [orient] <;> ring
+
+
+theorem present_mono {n k j : Nat} (h : Present n k j) : Present n (k + 1) j := by
+  rcases h with h | h | h | h
+  · exact Or.inl (by omega)
+  · exact Or.inr (Or.inl h)
+  · exact Or.inr (Or.inr (Or.inl h))
+  · exact Or.inr (Or.inr (Or.inr h))
+
+/-- a present point is never strictly beyond a boundary edge of the super-triangle -/
+theorem present_super_side (P : Nat → Pt R) (n k : Nat) (hk : k ≤ n)
+    (hsuper : orient (P n) (P (n + 1)) (P (n + 2)) < 0) (hin : InputsInSuper P n)
+    (e : Edge) (he : isSuperEdge n e) (j : Nat) (hj : Present n k j) :
+    orient (P e.1) (P e.2) (P j) ≤ 0 := by
+  have r1 := (orient_rot (P n) (P (n + 1)) (P (n + 2))).1
+  have r2 := (orient_rot (P n) (P (n + 1)) (P (n + 2))).2
+  rcases he with rfl | rfl | rfl <;> rcases hj with hj | rfl | rfl | rfl
+  · exact (hin j (by omega)).1.le
+  · exact le_of_eq (orient_self _ _).1
+  · exact le_of_eq (orient_self _ _).2
+  · exact hsuper.le
+  · exact (hin j (by omega)).2.1.le
+  · simp only; rw [r1]; exact hsuper.le
+  · exact le_of_eq (orient_self _ _).1
+  · exact le_of_eq (orient_self _ _).2
+  · exact (hin j (by omega)).2.2.le
+  · exact le_of_eq (orient_self _ _).2
+  · simp only; rw [r2]; exact hsuper.le
+  · exact le_of_eq (orient_self _ _).1
+
+/-- the state invariant: strictly clockwise triangles, Delaunay w.r.t. every present point (super vertices included),
+    only present vertices -/
+def StateInv (P : Nat → Pt R) (n k : Nat) (S : List Tri) : Prop :=
+  (∀ t ∈ S, orient (P t.1) (P t.2.1) (P t.2.2) < 0) ∧
+  (∀ t ∈ S, ∀ j, Present n k j → ¬ inCircleDet (P t.1) (P t.2.1) (P t.2.2) (P j) < 0) ∧
+  (∀ t ∈ S, Present n k t.1 ∧ Present n k t.2.1 ∧ Present n k t.2.2)
+
+/-- **cavity_edge**: in a state satisfying the invariant whose edges are paired, every boundary edge `e` of the cavity of
+    the next point `p = P k` has `p` strictly on its inner side (`FanPositive` at `e`), the fan triangle `(e.1, e.2, k)` has no
+    present point strictly inside its circumcircle (`FanEmpty` at `e`), and its end points are present -/
+theorem cavity_edge (P : Nat → Pt R) (n k : Nat) (hk : k < n) (S : List Tri) (hn : S.Nodup)
+    (hsuper : orient (P n) (P (n + 1)) (P (n + 2)) < 0) (hin : InputsInSuper P n)
+    (hinv : StateInv P n k S)
+    (hpair : ∀ t ∈ S, ∀ e ∈ edges t, isSuperEdge n e ∨ ∃ u ∈ S, (e.2, e.1) ∈ edges u)
+    (e : Edge) (he : e ∈ polygon (S.filter (fun t => insideCirc P t (P k)))) :
+    orient (P e.1) (P e.2) (P k) < 0 ∧
+    (∀ j, Present n k j → ¬ inCircleDet (P e.1) (P e.2) (P k) (P j) < 0) ∧
+    Present n k e.1 ∧ Present n k e.2 := by
+  obtain ⟨i1, i3, i5⟩ := hinv
+  obtain ⟨T, hT, heT, hoth⟩ := (mem_polygon_iff (hn.filter _) e).mp he
+  obtain ⟨hTS, hTbad⟩ := List.mem_filter.mp hT
+  have hTbad' : inCircleDet (P T.1) (P T.2.1) (P T.2.2) (P k) < 0 := by simpa [insideCirc] using hTbad
+  obtain ⟨c, hc, ha, hb, hor, hdet⟩ := edge_opp P T e heT
+  have hcw : orient (P e.1) (P e.2) (P c) < 0 := by rw [hor]; exact i1 T hTS
+  have hbadc : inCircleDet (P e.1) (P e.2) (P c) (P k) < 0 := by rw [hdet]; exact hTbad'
+  have pres : ∀ v, (v = T.1 ∨ v = T.2.1 ∨ v = T.2.2) → Present n k v := by
+    rintro v (rfl | rfl | rfl)
+    · exact (i5 T hTS).1
+    · exact (i5 T hTS).2.1
+    · exact (i5 T hTS).2.2
+  have houtT : ∀ j, Present n k j → ¬ inCircleDet (P e.1) (P e.2) (P c) (P j) < 0 := by
+    intro j hj; rw [hdet]; exact i3 T hTS j hj
+  rcases hpair T hTS e heT with hse | ⟨u, huS, hue⟩
+  · -- a boundary edge of the super-triangle: the point is inside the super-triangle, nothing lies beyond the edge
+    have hp : orient (P e.1) (P e.2) (P k) < 0 := by
+      rcases hse with rfl | rfl | rfl
+      · exact (hin k hk).1
+      · exact (hin k hk).2.1
+      · exact (hin k hk).2.2
+    refine ⟨hp, ?_, pres _ ha, pres _ hb⟩
+    intro j hj
+    exact fan_empty_same_side _ _ _ _ _ hcw hp (present_super_side P n k hk.le hsuper hin e hse j hj) hbadc (houtT j hj)
+  · -- the neighbour across the edge is not bad
+    have hune : u ≠ T := by
+      rintro rfl
+      exact no_both_dirs P u (i1 u huS).ne e.1 e.2 heT hue
+    have hunb : ¬ inCircleDet (P u.1) (P u.2.1) (P u.2.2) (P k) < 0 := by
+      intro hub
+      have huB : u ∈ S.filter (fun t => insideCirc P t (P k)) :=
+        List.mem_filter.mpr ⟨huS, by simpa [insideCirc] using hub⟩
+      have := hoth u huB hune (e.2, e.1) hue
+      simp [edgeSame] at this
+    obtain ⟨q, hq, _, _, horu, hdetu⟩ := edge_opp P u (e.2, e.1) hue
+    simp only at horu hdetu
+    have hqcw : orient (P e.2) (P e.1) (P q) < 0 := by rw [horu]; exact i1 u huS
+    have hloc : ¬ inCircleDet (P e.2) (P e.1) (P q) (P c) < 0 := by
+      rw [hdetu]; exact i3 u huS c (pres c hc)
+    have hnb : ¬ inCircleDet (P e.2) (P e.1) (P q) (P k) < 0 := by rw [hdetu]; exact hunb
+    have hp : orient (P e.1) (P e.2) (P k) < 0 :=
+      boundary_edge_inner _ _ _ _ _ hcw hqcw hloc hbadc hnb
+    refine ⟨hp, ?_, pres _ ha, pres _ hb⟩
+    intro j hj
+    rcases le_total (orient (P e.1) (P e.2) (P j)) 0 with hx | hx
+    · exact fan_empty_same_side _ _ _ _ _ hcw hp hx hbadc (houtT j hj)
+    · refine fan_empty_other_side _ _ _ _ _ hqcw hp hx hnb ?_
+      rw [hdetu]; exact i3 u huS j hj
+
+
+/-- the directed-edge pairing of one state -/
+def Paired (n : Nat) (S : List Tri) : Prop :=
+  ∀ t ∈ S, ∀ e ∈ edges t, isSuperEdge n e ∨ ∃ u ∈ S, (e.2, e.1) ∈ edges u
+
+theorem not_present_self {n k : Nat} (hk : k < n) : ¬ Present n k k := by
+  rintro (h | h | h | h) <;> omega
+
+/-- what one insertion does to a state satisfying the invariant whose edges are paired: the fan triangles are exactly
+    `(e.1, e.2, k)` for the boundary edges `e` of the cavity, and the invariant is kept -/
+theorem stateInv_step (P : Nat → Pt R) (env : List Tri → List Tri) (henv : ∀ l, (env l).Perm l) (n k : Nat) (hkn : k < n)
+    (hsuper : orient (P n) (P (n + 1)) (P (n + 2)) < 0) (hin : InputsInSuper P n)
+    (S : List Tri) (hnod : S.Nodup) (hS : StateInv P n k S) (hX : Paired n S) :
+    (∀ t, t ∈ step P env S k ↔ (t ∈ S ∧ insideCirc P t (P k) = false) ∨
+        ∃ e ∈ polygon (S.filter (fun t => insideCirc P t (P k))), t = (e.1, e.2, k)) ∧
+    StateInv P n (k + 1) (step P env S k) := by
+  have hspec := (step_spec P env henv S hnod k).2
+  have hce := cavity_edge P n k hkn S hnod hsuper hin hS hX
+  have hfan : ∀ e ∈ polygon (S.filter (fun t => insideCirc P t (P k))), fanTri P e k = (e.1, e.2, k) := by
+    intro e he
+    have hp := (hce e he).1
+    have hnot : ccw P (e.1, e.2, k) = false := by
+      simp only [ccw, decide_eq_false_iff_not, not_lt]; exact hp.le
+    simp only [fanTri, hnot, Bool.false_eq_true, if_false]
+  have hnt : ∀ e ∈ polygon (S.filter (fun t => insideCirc P t (P k))), (e.1 == k || e.2 == k) = false := by
+    intro e he
+    have h1 : e.1 ≠ k := fun h => not_present_self hkn (h ▸ (hce e he).2.2.1)
+    have h2 : e.2 ≠ k := fun h => not_present_self hkn (h ▸ (hce e he).2.2.2)
+    simp [h1, h2]
+  have hmem : ∀ t, t ∈ step P env S k ↔ (t ∈ S ∧ insideCirc P t (P k) = false) ∨
+      ∃ e ∈ polygon (S.filter (fun t => insideCirc P t (P k))), t = (e.1, e.2, k) := by
+    intro t
+    rw [hspec t]
+    constructor
+    · rintro (h | ⟨e, he, _, rfl⟩)
+      · exact Or.inl h
+      · exact Or.inr ⟨e, he, hfan e he⟩
+    · rintro (h | ⟨e, he, rfl⟩)
+      · exact Or.inl h
+      · exact Or.inr ⟨e, he, hnt e he, (hfan e he).symm⟩
+  refine ⟨hmem, ?_⟩
+  obtain ⟨i1, i3, i5⟩ := hS
+  have pk : Present n (k + 1) k := Or.inl (by omega)
+  refine ⟨?_, ?_, ?_⟩
+  · intro t ht
+    rcases (hmem t).mp ht with ⟨hold, _⟩ | ⟨e, he, rfl⟩
+    · exact i1 t hold
+    · exact (hce e he).1
+  · intro t ht j hj
+    rcases (hmem t).mp ht with ⟨hold, hkeep⟩ | ⟨e, he, rfl⟩
+    · rcases hj with hj | hj
+      · rcases Nat.lt_succ_iff_lt_or_eq.mp hj with hlt | rfl
+        · exact i3 t hold j (Or.inl hlt)
+        · simpa [insideCirc] using hkeep
+      · exact i3 t hold j (Or.inr hj)
+    · simp only
+      have hemp := (hce e he).2.1
+      have corner : ¬ inCircleDet (P e.1) (P e.2) (P k) (P k) < 0 := by
+        rw [(inCircleDet_corner (P e.1) (P e.2) (P k)).2.2]; exact lt_irrefl _
+      rcases hj with hj | hj
+      · rcases Nat.lt_succ_iff_lt_or_eq.mp hj with hlt | rfl
+        · exact hemp j (Or.inl hlt)
+        · exact corner
+      · exact hemp j (Or.inr hj)
+  · intro t ht
+    rcases (hmem t).mp ht with ⟨hold, _⟩ | ⟨e, he, rfl⟩
+    · obtain ⟨a, b, c⟩ := i5 t hold
+      exact ⟨present_mono a, present_mono b, present_mono c⟩
+    · exact ⟨present_mono (hce e he).2.2.1, present_mono (hce e he).2.2.2, pk⟩
+
+theorem stateInv_zero (P : Nat → Pt R) (env : List Tri → List Tri) (n : Nat)
+    (hsuper : orient (P n) (P (n + 1)) (P (n + 2)) < 0) : StateInv P n 0 (stateAt P env n 0) := by
+  have hst : stateAt P env n 0 = [(n, n + 1, n + 2)] := rfl
+  rw [hst]
+  refine ⟨?_, ?_, ?_⟩
+  · intro t ht; simp only [List.mem_singleton] at ht; subst ht; exact hsuper
+  · intro t ht j hj
+    simp only [List.mem_singleton] at ht; subst ht
+    have hc := inCircleDet_corner (P n) (P (n + 1)) (P (n + 2))
+    rcases hj with hj | rfl | rfl | rfl
+    · omega
+    · simp only; rw [hc.1]; exact lt_irrefl _
+    · simp only; rw [hc.2.1]; exact lt_irrefl _
+    · simp only; rw [hc.2.2]; exact lt_irrefl _
+  · intro t ht; simp only [List.mem_singleton] at ht; subst ht
+    exact ⟨Or.inr (Or.inl rfl), Or.inr (Or.inr (Or.inl rfl)), Or.inr (Or.inr (Or.inr rfl))⟩
+
+/-- the invariant holds in every state the loop reaches, given only the combinatorial hypothesis `EdgePaired` -/
+theorem stateInv_of_edgePaired (P : Nat → Pt R) (env : List Tri → List Tri) (henv : ∀ l, (env l).Perm l) (n : Nat)
+    (hsuper : orient (P n) (P (n + 1)) (P (n + 2)) < 0) (hin : InputsInSuper P n) (hpair : EdgePaired P env n) :
+    ∀ k ≤ n, StateInv P n k (stateAt P env n k) := by
+  intro k
+  induction k with
+  | zero => intro _; exact stateInv_zero P env n hsuper
+  | succ k ih =>
+    intro hk
+    rw [stateAt_succ]
+    exact (stateInv_step P env henv n k (by omega) hsuper hin _ (stateAt_nodup P env henv n k) (ih (by omega))
+      (hpair k (by omega))).2
+
+/-- each directed edge occurs in at most one triangle of the state -/
+def EdgeUnique (S : List Tri) : Prop := ∀ t ∈ S, ∀ u ∈ S, ∀ e, e ∈ edges t → e ∈ edges u → t = u
+
+/-- the boundary of a cavity is a union of directed cycles in which every vertex has exactly one incoming and one outgoing
+    edge — what makes the cavity a disc around the inserted point -/
+def DiscAt (Q : List Edge) : Prop :=
+  (∀ e ∈ Q, ∃ f ∈ Q, f.1 = e.2) ∧ (∀ e ∈ Q, ∃ f ∈ Q, f.2 = e.1) ∧
+  (∀ e ∈ Q, ∀ f ∈ Q, e.2 = f.2 → e = f) ∧ (∀ e ∈ Q, ∀ f ∈ Q, e.1 = f.1 → e = f)
+
+/-- THE ONE REMAINING HYPOTHESIS `CavityDisc` (combinatorial/topological, not proved): at every insertion the boundary of the
+    cavity has in- and out-degree one at each of its vertices -/
+def CavityDisc (P : Nat → Pt R) (env : List Tri → List Tri) (n : Nat) : Prop :=
+  ∀ k < n, DiscAt (polygon ((stateAt P env n k).filter (fun t => insideCirc P t (P k))))
+
+theorem edge_verts (t : Tri) (e : Edge) (he : e ∈ edges t) :
+    (e.1 = t.1 ∨ e.1 = t.2.1 ∨ e.1 = t.2.2) ∧ (e.2 = t.1 ∨ e.2 = t.2.1 ∨ e.2 = t.2.2) := by
+  obtain ⟨t1, t2, t3⟩ := t
+  simp only [edges, List.mem_cons, List.not_mem_nil, or_false] at he
+  rcases he with rfl | rfl | rfl <;> simp
+
+/-- pairing and uniqueness of directed edges survive an insertion whose cavity boundary is a disc boundary -/
+theorem pairing_step (P : Nat → Pt R) (env : List Tri → List Tri) (henv : ∀ l, (env l).Perm l) (n k : Nat) (hkn : k < n)
+    (hsuper : orient (P n) (P (n + 1)) (P (n + 2)) < 0) (hin : InputsInSuper P n)
+    (S : List Tri) (hnod : S.Nodup) (hS : StateInv P n k S) (hX : Paired n S) (hU : EdgeUnique S)
+    (hD : DiscAt (polygon (S.filter (fun t => insideCirc P t (P k))))) :
+    Paired n (step P env S k) ∧ EdgeUnique (step P env S k) := by
+  obtain ⟨hmem, _⟩ := stateInv_step P env henv n k hkn hsuper hin S hnod hS hX
+  have hce := cavity_edge P n k hkn S hnod hsuper hin hS hX
+  obtain ⟨i1, i3, i5⟩ := hS
+  obtain ⟨d1, d1', d2, d2'⟩ := hD
+  set Q := polygon (S.filter (fun t => insideCirc P t (P k))) with hQ
+  have hbadn : (S.filter (fun t => insideCirc P t (P k))).Nodup := hnod.filter _
+  -- vertices of old triangles are not k
+  have oldv : ∀ t ∈ S, ∀ e ∈ edges t, e.1 ≠ k ∧ e.2 ≠ k := by
+    intro t ht e he
+    obtain ⟨p1, p2, p3⟩ := i5 t ht
+    obtain ⟨v1, v2⟩ := edge_verts t e he
+    have pe1 : Present n k e.1 := by
+      rcases v1 with h | h | h <;> rw [h] <;> assumption
+    have pe2 : Present n k e.2 := by
+      rcases v2 with h | h | h <;> rw [h] <;> assumption
+    exact ⟨fun h => not_present_self hkn (h ▸ pe1), fun h => not_present_self hkn (h ▸ pe2)⟩
+  have qv : ∀ e ∈ Q, e.1 ≠ k ∧ e.2 ≠ k := by
+    intro e he
+    exact ⟨fun h => not_present_self hkn (h ▸ (hce e he).2.2.1), fun h => not_present_self hkn (h ▸ (hce e he).2.2.2)⟩
+  -- the bad triangle behind a boundary edge
+  have qT : ∀ e ∈ Q, ∃ T ∈ S, insideCirc P T (P k) = true ∧ e ∈ edges T ∧
+      ∀ o ∈ S, insideCirc P o (P k) = true → o ≠ T → ∀ f ∈ edges o, edgeSame e f = false := by
+    intro e he
+    obtain ⟨T, hT, heT, hoth⟩ := (mem_polygon_iff hbadn e).mp he
+    obtain ⟨hTS, hTb⟩ := List.mem_filter.mp hT
+    exact ⟨T, hTS, hTb, heT, fun o ho hob hne f hf => hoth o (List.mem_filter.mpr ⟨ho, hob⟩) hne f hf⟩
+  have fanmem : ∀ e ∈ Q, (e.1, e.2, k) ∈ step P env S k := fun e he => (hmem _).mpr (Or.inr ⟨e, he, rfl⟩)
+  constructor
+  · -- pairing
+    intro t ht e he
+    rcases (hmem t).mp ht with ⟨htS, htk⟩ | ⟨g, hg, rfl⟩
+    · rcases hX t htS e he with hs | ⟨u, huS, hue⟩
+      · exact Or.inl hs
+      · by_cases hub : insideCirc P u (P k) = true
+        · -- the neighbour is removed: the reversed edge is a boundary edge of the cavity, its fan triangle carries it
+          have hrev : (e.2, e.1) ∈ Q := by
+            refine (mem_polygon_iff hbadn _).mpr ⟨u, List.mem_filter.mpr ⟨huS, hub⟩, hue, ?_⟩
+            intro o ho hne f hf
+            obtain ⟨hoS, hob⟩ := List.mem_filter.mp ho
+            by_contra hsame
+            have hsame' : edgeSame (e.2, e.1) f = true := by simpa using hsame
+            simp only [edgeSame, Bool.or_eq_true, Bool.and_eq_true, beq_iff_eq] at hsame'
+            rcases hsame' with ⟨h1, h2⟩ | ⟨h1, h2⟩
+            · have : f = (e.2, e.1) := by ext <;> simp [h1, h2]
+              exact hne (hU o hoS u huS _ (this ▸ hf) hue)
+            · have : f = e := by ext <;> simp [h1, h2]
+              have hot : o = t := hU o hoS t htS _ (this ▸ hf) he
+              rw [hot] at hob; rw [hob] at htk; cases htk
+          exact Or.inr ⟨_, fanmem _ hrev, by simp [edges]⟩
+        · exact Or.inr ⟨u, (hmem u).mpr (Or.inl ⟨huS, by simpa using hub⟩), hue⟩
+    · -- a fan triangle (g.1, g.2, k)
+      simp only [edges, List.mem_cons, List.not_mem_nil, or_false] at he
+      rcases he with rfl | rfl | rfl
+      · -- its base edge: the neighbour across it is kept
+        obtain ⟨T, hTS, hTb, hgT, hoth⟩ := qT g hg
+        rcases hX T hTS g hgT with hs | ⟨u, huS, hue⟩
+        · exact Or.inl hs
+        · have hune : u ≠ T := by
+            rintro rfl
+            exact no_both_dirs P u (i1 u huS).ne g.1 g.2 hgT hue
+          have hunb : insideCirc P u (P k) = false := by
+            by_contra hub
+            have := hoth u huS (by simpa using hub) hune (g.2, g.1) hue
+            simp [edgeSame] at this
+          exact Or.inr ⟨u, (hmem u).mpr (Or.inl ⟨huS, hunb⟩), hue⟩
+      · -- (g.2, k): the next boundary edge's fan triangle has (k, g.2)
+        obtain ⟨f, hf, hf1⟩ := d1 g hg
+        exact Or.inr ⟨_, fanmem f hf, by simp [edges, hf1]⟩
+      · -- (k, g.1): the previous boundary edge's fan triangle has (g.1, k)
+        obtain ⟨f, hf, hf2⟩ := d1' g hg
+        exact Or.inr ⟨_, fanmem f hf, by simp [edges, hf2]⟩
+  · -- uniqueness
+    intro t ht u hu e het heu
+    rcases (hmem t).mp ht with ⟨htS, htk⟩ | ⟨g, hg, rfl⟩ <;> rcases (hmem u).mp hu with ⟨huS, huk⟩ | ⟨g', hg', rfl⟩
+    · exact hU t htS u huS e het heu
+    · exfalso
+      obtain ⟨v1, v2⟩ := oldv t htS e het
+      simp only [edges, List.mem_cons, List.not_mem_nil, or_false] at heu
+      rcases heu with rfl | rfl | rfl
+      · obtain ⟨T, hTS, hTb, hgT, _⟩ := qT g' hg'
+        have := hU t htS T hTS _ het hgT
+        rw [this] at htk; rw [hTb] at htk; cases htk
+      · exact v2 rfl
+      · exact v1 rfl
+    · exfalso
+      obtain ⟨v1, v2⟩ := oldv u huS e heu
+      simp only [edges, List.mem_cons, List.not_mem_nil, or_false] at het
+      rcases het with rfl | rfl | rfl
+      · obtain ⟨T, hTS, hTb, hgT, _⟩ := qT g hg
+        have := hU u huS T hTS _ heu hgT
+        rw [this] at huk; rw [hTb] at huk; cases huk
+      · exact v2 rfl
+      · exact v1 rfl
+    · obtain ⟨a1, a2⟩ := qv g hg
+      obtain ⟨b1, b2⟩ := qv g' hg'
+      simp only [edges, List.mem_cons, List.not_mem_nil, or_false] at het heu
+      have key : g = g' := by
+        rcases het with rfl | rfl | rfl <;> rcases heu with h | h | h
+        · exact Prod.ext (congrArg Prod.fst h) (congrArg Prod.snd h)
+        · exact absurd (congrArg Prod.snd h) a2
+        · exact absurd (congrArg Prod.fst h) a1
+        · exact absurd (congrArg Prod.snd h).symm b2
+        · exact d2 g hg g' hg' (congrArg Prod.fst h)
+        · exact absurd (congrArg Prod.fst h) a2
+        · exact absurd (congrArg Prod.fst h).symm b1
+        · exact absurd (congrArg Prod.snd h) a1
+        · exact d2' g hg g' hg' (congrArg Prod.snd h)
+      rw [key]
+
+/-- both geometric hypotheses follow from the combinatorial one -/
+theorem fanPositive_of_edgePaired (P : Nat → Pt R) (env : List Tri → List Tri) (henv : ∀ l, (env l).Perm l) (n : Nat)
+    (hsuper : orient (P n) (P (n + 1)) (P (n + 2)) < 0) (hin : InputsInSuper P n) (hpair : EdgePaired P env n) :
+    FanPositive P env n := by
+  intro k hk e he _
+  exact (cavity_edge P n k hk _ (stateAt_nodup P env henv n k) hsuper hin
+    (stateInv_of_edgePaired P env henv n hsuper hin hpair k hk.le) (hpair k hk) e he).1
+
+theorem fanEmpty_of_edgePaired (P : Nat → Pt R) (env : List Tri → List Tri) (henv : ∀ l, (env l).Perm l) (n : Nat)
+    (hsuper : orient (P n) (P (n + 1)) (P (n + 2)) < 0) (hin : InputsInSuper P n) (hpair : EdgePaired P env n) :
+    FanEmpty P env n := by
+  intro k hk e he _ j hj
+  have hce := cavity_edge P n k hk _ (stateAt_nodup P env henv n k) hsuper hin
+    (stateInv_of_edgePaired P env henv n hsuper hin hpair k hk.le) (hpair k hk) e he
+  have hnot : ccw P (e.1, e.2, k) = false := by
+    simp only [ccw, decide_eq_false_iff_not, not_lt]; exact hce.1.le
+  simp only [fanTri, hnot, Bool.false_eq_true, if_false, insideCirc, decide_eq_false_iff_not]
+  exact hce.2.1 j (Or.inl hj)
+
+/-- **bw_delaunay_of_edgePaired**: for a clockwise super-triangle strictly containing the inputs, and every map order: if the
+    states' edges are paired (`EdgePaired`, combinatorial), then NO triangle of the final state — hence no output triangle — has
+    an input point (or a super-triangle vertex) strictly inside its circumcircle, and every one is strictly clockwise. -/
+theorem bw_delaunay_of_edgePaired (P : Nat → Pt R) (env : List Tri → List Tri) (henv : ∀ l, (env l).Perm l) (n : Nat)
+    (hsuper : orient (P n) (P (n + 1)) (P (n + 2)) < 0) (hin : InputsInSuper P n) (hpair : EdgePaired P env n) :
+    ∀ t ∈ bw P env n, orient (P t.1) (P t.2.1) (P t.2.2) < 0 ∧
+      ∀ j < n, ¬ inCircleDet (P t.1) (P t.2.1) (P t.2.2) (P j) < 0 := by
+  intro t ht
+  have hl : t ∈ stateAt P env n n := (List.mem_filter.mp ht).1
+  obtain ⟨i1, i3, _⟩ := stateInv_of_edgePaired P env henv n hsuper hin hpair n le_rfl
+  exact ⟨i1 t hl, fun j hj => i3 t hl j (Or.inl hj)⟩
+
+/-- the same in the geometric form of the property's clause -/
+theorem bw_empty_circumcircles_of_edgePaired (P : Nat → Pt R) (env : List Tri → List Tri) (henv : ∀ l, (env l).Perm l)
+    (n : Nat) (hsuper : orient (P n) (P (n + 1)) (P (n + 2)) < 0) (hin : InputsInSuper P n)
+    (hpair : EdgePaired P env n) :
+    ∀ t ∈ bw P env n, ∀ j < n, ¬ StrictlyInsideCircumcircle (P t.1) (P t.2.1) (P t.2.2) (P j) := by
+  intro t ht j hj hins
+  obtain ⟨h1, h2⟩ := bw_delaunay_of_edgePaired P env henv n hsuper hin hpair t ht
+  exact h2 j hj (inCircle_neg_of_inside _ _ _ _ h1 hins)
+
+
+/-- the full structural invariant along the run, from `CavityDisc` alone -/
+theorem structure_of_cavityDisc (P : Nat → Pt R) (env : List Tri → List Tri) (henv : ∀ l, (env l).Perm l) (n : Nat)
+    (hsuper : orient (P n) (P (n + 1)) (P (n + 2)) < 0) (hin : InputsInSuper P n) (hdisc : CavityDisc P env n) :
+    ∀ k ≤ n, StateInv P n k (stateAt P env n k) ∧ Paired n (stateAt P env n k) ∧ EdgeUnique (stateAt P env n k) := by
+  intro k
+  induction k with
+  | zero =>
+    intro _
+    refine ⟨stateInv_zero P env n hsuper, ?_, ?_⟩
+    · intro t ht e he
+      have hst : stateAt P env n 0 = [(n, n + 1, n + 2)] := rfl
+      rw [hst, List.mem_singleton] at ht; subst ht
+      simp only [edges, List.mem_cons, List.not_mem_nil, or_false] at he
+      exact Or.inl he
+    · intro t ht u hu e _ _
+      have hst : stateAt P env n 0 = [(n, n + 1, n + 2)] := rfl
+      rw [hst, List.mem_singleton] at ht hu
+      rw [ht, hu]
+  | succ k ih =>
+    intro hk
+    obtain ⟨hS, hX, hU⟩ := ih (by omega)
+    have hkn : k < n := by omega
+    have hnod := stateAt_nodup P env henv n k
+    rw [stateAt_succ]
+    obtain ⟨h1, h2⟩ := pairing_step P env henv n k hkn hsuper hin _ hnod hS hX hU (hdisc k hkn)
+    exact ⟨(stateInv_step P env henv n k hkn hsuper hin _ hnod hS hX).2, h1, h2⟩
+
+theorem edgePaired_of_cavityDisc (P : Nat → Pt R) (env : List Tri → List Tri) (henv : ∀ l, (env l).Perm l) (n : Nat)
+    (hsuper : orient (P n) (P (n + 1)) (P (n + 2)) < 0) (hin : InputsInSuper P n) (hdisc : CavityDisc P env n) :
+    EdgePaired P env n :=
+  fun k hk => (structure_of_cavityDisc P env henv n hsuper hin hdisc k hk.le).2.1
+
+/-- **bw_delaunay_of_cavityDisc**: clockwise super-triangle strictly containing the inputs, any map order.  If at every
+    insertion the cavity boundary has in- and out-degree one at each vertex (`CavityDisc`: the ONE remaining, purely
+    combinatorial hypothesis), then every output triangle is strictly clockwise (one winding, positive area) and has no
+    input point strictly inside its circumcircle.  `FanPositive` and `FanEmpty` are no longer hypotheses: they are proved
+    along the way (`cavity_edge`). -/
+theorem bw_delaunay_of_cavityDisc (P : Nat → Pt R) (env : List Tri → List Tri) (henv : ∀ l, (env l).Perm l) (n : Nat)
+    (hsuper : orient (P n) (P (n + 1)) (P (n + 2)) < 0) (hin : InputsInSuper P n) (hdisc : CavityDisc P env n) :
+    ∀ t ∈ bw P env n, orient (P t.1) (P t.2.1) (P t.2.2) < 0 ∧
+      (∀ j < n, ¬ inCircleDet (P t.1) (P t.2.1) (P t.2.2) (P j) < 0) ∧
+      (∀ j < n, ¬ StrictlyInsideCircumcircle (P t.1) (P t.2.1) (P t.2.2) (P j)) := by
+  intro t ht
+  have hp := edgePaired_of_cavityDisc P env henv n hsuper hin hdisc
+  obtain ⟨h1, h2⟩ := bw_delaunay_of_edgePaired P env henv n hsuper hin hp t ht
+  exact ⟨h1, h2, fun j hj hins => h2 j hj (inCircle_neg_of_inside _ _ _ _ h1 hins)⟩
+
+/-- and the two formerly hypothetical facts, now consequences -/
+theorem fan_hypotheses_of_cavityDisc (P : Nat → Pt R) (env : List Tri → List Tri) (henv : ∀ l, (env l).Perm l) (n : Nat)
+    (hsuper : orient (P n) (P (n + 1)) (P (n + 2)) < 0) (hin : InputsInSuper P n) (hdisc : CavityDisc P env n) :
+    FanPositive P env n ∧ FanEmpty P env n :=
+  ⟨fanPositive_of_edgePaired P env henv n hsuper hin (edgePaired_of_cavityDisc P env henv n hsuper hin hdisc),
+   fanEmpty_of_edgePaired P env henv n hsuper hin (edgePaired_of_cavityDisc P env henv n hsuper hin hdisc)⟩
+
+end Structure
+
+section PublicEntry
+variable {K : Type} [Field K] [LinearOrder K] [IsStrictOrderedRing K]
+
+/-- the model's own point function puts every input strictly inside its (clockwise) super-triangle, for inputs of positive width -/
+theorem pointFn_inputsInSuper (p : Pt K) (ps : List (Pt K))
+    (hw : minOf p.1 (ps.map (·.1)) < maxOf p.1 (ps.map (·.1))) :
+    orient (pointFn p ps (p :: ps).length) (pointFn p ps ((p :: ps).length + 1)) (pointFn p ps ((p :: ps).length + 2)) < 0 ∧
+    InputsInSuper (pointFn p ps) (p :: ps).length := by
+  obtain ⟨l, t, r, hs, hc⟩ := superTriangle_contains p ps hw
+  obtain ⟨l', t', r', hs', ho⟩ := superTriangle_cw p ps hw
+  rw [hs] at hs'
+  simp only [List.cons.injEq, and_true] at hs'
+  obtain ⟨rfl, rfl, rfl⟩ := hs'
+  obtain ⟨h0, h1, h2⟩ := pointFn_super p ps l t r hs
+  rw [h0, h1, h2]
+  refine ⟨ho, ?_⟩
+  intro j hj
+  rw [h0, h1, h2, pointFn_input p ps j hj]
+  exact hc _ (List.getElem_mem hj)
+
+/-- **bowyerWatson_delaunay_of_cavityDisc**: the public entry point of the model, any map order, any input of positive
+    width: under `CavityDisc` every output triangle is strictly clockwise and has no input point strictly inside its
+    circumcircle. -/
+theorem bowyerWatson_delaunay_of_cavityDisc (env : List Tri → List Tri) (henv : ∀ l, (env l).Perm l)
+    (p : Pt K) (ps : List (Pt K)) (tris : List Tri) (h : bowyerWatson env (p :: ps) = some tris)
+    (hw : minOf p.1 (ps.map (·.1)) < maxOf p.1 (ps.map (·.1)))
+    (hdisc : CavityDisc (pointFn p ps) env (p :: ps).length) :
+    ∀ t ∈ tris, orient (pointFn p ps t.1) (pointFn p ps t.2.1) (pointFn p ps t.2.2) < 0 ∧
+      ∀ j < (p :: ps).length,
+        ¬ StrictlyInsideCircumcircle (pointFn p ps t.1) (pointFn p ps t.2.1) (pointFn p ps t.2.2) (pointFn p ps j) := by
+  match ps, h, hw, hdisc with
+  | q :: r :: rest, h, hw, hdisc =>
+    simp only [bowyerWatson, Option.some.injEq] at h
+    subst h
+    obtain ⟨hsup, hin⟩ := pointFn_inputsInSuper p (q :: r :: rest) hw
+    intro t ht
+    obtain ⟨a, _, c⟩ := bw_delaunay_of_cavityDisc (pointFn p (q :: r :: rest)) env henv _ hsup hin hdisc t ht
+    exact ⟨a, c⟩
+end PublicEntry
+
+/-- the executable form decides the remaining hypothesis (for the enumeration order `id`) -/
+theorem cavityDisc_check_sound {R : Type} [CommRing R] [LinearOrder R] [IsStrictOrderedRing R]
+    (P : Nat → Pt R) (n : Nat) (h : cavityDiscOk P n = true) : CavityDisc P id n := by
+  intro k hk
+  have h1 := (List.all_eq_true.mp h) k (List.mem_range.mpr hk)
+  simp only [discOk, Bool.and_eq_true, List.all_eq_true, List.any_eq_true, beq_iff_eq, Bool.or_eq_true,
+    Bool.not_eq_true', beq_eq_false_iff_ne, ne_eq] at h1
+  obtain ⟨⟨⟨a, b⟩, c⟩, d⟩ := h1
+  refine ⟨fun e he => ?_, fun e he => ?_, fun e he f hf hef => ?_, fun e he f hf hef => ?_⟩
+  · obtain ⟨f, hf, hf1⟩ := a e he; exact ⟨f, hf, hf1⟩
+  · obtain ⟨f, hf, hf1⟩ := b e he; exact ⟨f, hf, hf1⟩
+  · rcases c e he f hf with h | h
+    · exact absurd hef h
+    · exact h
+  · rcases d e he f hf with h | h
+    · exact absurd hef h
+    · exact h
+
+/-- the hypotheses of `bw_delaunay_of_cavityDisc` are satisfiable: the 3-point instance `exP` (super-triangle strictly
+    clockwise, inputs strictly inside it, every cavity a disc) -/
+example : orient (exP 3) (exP 4) (exP 5) < 0 ∧ InputsInSuper exP 3 ∧ CavityDisc exP id 3 := by
+  refine ⟨by decide, ?_, cavityDisc_check_sound exP 3 (by decide)⟩
+  unfold InputsInSuper; decide
+
 /-! ### the witness of the known finding C20-float-incircle-tight-cluster is in general position
 
 Input (insertion order): (352,320), (432,−480), (−880,288), (0,0), (3,1)·2⁻⁴⁶, (1,4)·2⁻⁴⁶, (864,−32); below on the common
